@@ -15,6 +15,7 @@ RULE = ("single terms: all 63 non-identity Pauli strings on {0,1,2} plus gapped 
         "repetition) of <= 3 terms from a non-commuting pool x steps {1,2,3} x times: structural equality with the concatenation of per-term circuits "
         "(symbolic time) and matrix equality with the ordered product of closed-form exponentials; derivatives: operator identity "
         "sum_k f_k U_k^dagger O U_k = d/dt[U^dagger O U] for EVERY Pauli string O on the register. non-trivial = term acts on >= 2 qubits or list has >= 2 non-commuting terms")
+RULE += ' Round 7: XY / Heisenberg-type sums with equal adjacent couplings (and their derivatives); the imaginary-part guard through the derivatives entry point.'
 RULE += ' Round 5: single terms touching qubits 8 and 9 on 9-10 qubit registers.'
 ASSUMPTIONS = ["C01 (a circuit is the ordered product of its operations) lets the structural check extend the per-term all-t verdict to sums", "derivative identity is checked at listed times only (sums of incommensurate frequencies are not periodic)",
                "terms with coefficient exactly 0 are outside the derivative alphabet (the parameter shift pi/(4r) divides by zero)"]
@@ -131,8 +132,22 @@ def special_case(case):
         try:
             time_evolution(PauliSum([PauliTerm({0: "Z"}, 1.0), PauliTerm({1: "X"}, c)]), 0.3)
         except ValueError:
-            return {"ok": True, "nt": True, "out": "rejected"}
-        return {"ok": False, "msg": "sum with complex coefficient %s accepted" % c, "sig": "sum:imag-accepted"}
+            pass
+        else:
+            return {"ok": False, "msg": "sum with complex coefficient %s accepted" % c, "sig": "sum:imag-accepted"}
+        # the same guard through the derivatives entry point, for every position of the complex term and 1-2 steps (a refusal of any kind counts; silent truncation does not)
+        from orquestra.quantum.evolution import time_evolution_derivatives
+        for Hm in (PauliSum([PauliTerm({0: "Z"}, 1.0), PauliTerm({1: "X"}, c)]), PauliSum([PauliTerm({1: "X"}, c), PauliTerm({0: "Z"}, 1.0)]), PauliSum([PauliTerm({0: "Z", 1: "Z"}, c)]), PauliTerm({0: "X", 1: "Y"}, c)):
+            for ns in (1, 2):
+                try:
+                    import warnings
+                    with warnings.catch_warnings():
+                        warnings.simplefilter("ignore")
+                        time_evolution_derivatives(Hm, 0.3, "Trotter", ns)
+                except Exception:  # noqa: BLE001
+                    continue
+                return {"ok": False, "msg": "time_evolution_derivatives(%s, n_steps=%d): a coefficient with the imaginary part %g was accepted (silently truncated)" % (Hm, ns, c.imag), "sig": "derivatives:imag-accepted"}
+        return {"ok": True, "nt": True, "out": "rejected"}
     if kind == "tiny-imag":
         circ = time_evolution_for_term(PauliTerm({0: "Z"}, 1 + 1e-12j), 0.3)
         ok = _close(padded_unitary(circ, 1), closed_form(1.0, {0: "Z"}, 0.3, 1), atol=ATOL)
@@ -260,7 +275,7 @@ def symbolic_case(case):
     return {"ok": True, "nt": True, "ops": 2, "out": "symbolic"}
 
 
-FUNCS = {"far_qubits": far_case, "terms": term_case, "special": special_case, "sums": sum_case, "derivatives": deriv_case, "symbolic_time": symbolic_case}
+FUNCS = {"model_sums": sum_case, "model_derivatives": deriv_case, "far_qubits": far_case, "terms": term_case, "special": special_case, "sums": sum_case, "derivatives": deriv_case, "symbolic_time": symbolic_case}
 
 
 def run(run):
@@ -289,6 +304,15 @@ def run(run):
     steps = [1, 2, 3, 4] if thorough else [1, 2, 3]
     secs.append(Section("sums", [{"terms": [POOL[i] for i in l], "steps": s, "times": times} for l in lists for s in steps], sum_case, horizon=300,
                         desc="time_evolution on ordered term lists (with repetition): structure + matrix"))
+    # model Hamiltonians: XX + YY (+ ZZ) on one pair with EQUAL couplings listed next to each other (XY / Heisenberg models), in every order, also on two pairs
+    md = []
+    for cpl in (0.7, -1.3):
+        xx, yy, zz = [cpl, {"0": "X", "1": "X"}], [cpl, {"0": "Y", "1": "Y"}], [cpl, {"0": "Z", "1": "Z"}]
+        xx2, yy2 = [cpl, {"1": "X", "2": "X"}], [cpl, {"1": "Y", "2": "Y"}]
+        md += [list(p_) for p_ in itertools.permutations([xx, yy])] + [list(p_) for p_ in itertools.permutations([xx, yy, zz])] + [[xx, yy, xx2, yy2], [yy2, xx2, yy, xx], [xx, [0.5, {"0": "Z"}], yy], [xx, [2 * cpl, {"0": "Y", "1": "Y"}]]]
+    secs.append(Section("model_sums", [{"terms": t_, "steps": s_, "times": times} for t_ in md for s_ in (1, 2, 3)], sum_case, horizon=300, desc="XY / Heisenberg-type sums (XX, YY, ZZ with equal couplings, adjacent, every order): matrix of the ordered product"))
+    secs.append(Section("model_derivatives", [{"terms": t_, "steps": s_, "times": times[:1]} for t_ in md if len(t_) <= 3 and max(int(q_) for _, o_ in t_ for q_ in o_) <= 1 for s_ in (1, 2)], deriv_case, horizon=600,
+                        desc="derivative circuits of the XY / Heisenberg-type sums"))
     P2 = [p for p in POOL if width(p[1]) <= 2]
     dl = [list(c) for k in range(1, L + 1) for c in itertools.product(range(len(P2)), repeat=k)]
     dcases = [{"terms": [P2[i] for i in l], "steps": s, "times": times[:2]} for l in dl for s in steps]
